@@ -355,16 +355,22 @@ class C12(Profile):
         else:
             world.probe('get_with_attached_filter')
             world.compared()
+            dict_ts = (sw.cfg.get('respell_on_dicts') and sid.startswith('x-unreg-thing--')
+                       and any(f['p'] in TS for f in fs if f.get('via', 'arg') != 'arg'))
             if out.value is not None:
                 k = SW.obj_key(out.value)
                 if k[0] != sid or k not in pop:
                     raise Violation('attached-filters', 'C12.get/not-stored', dict(got=SW.kstr(k), filters=desc))
+                if k not in exp_keys and dict_ts:
+                    raise Violation('query-exact', 'C12.query/dict-kept-timestamp-compared-as-text', dict(filters=desc, got=SW.kstr(k), via='get'))
                 if k not in exp_keys:
                     raise Violation('attached-filters', 'C12.get/violates-attached-filter/%s' % facade,
                                     dict(got=SW.kstr(k), filters=desc))
             else:
                 cands = {k for k in exp_keys if k[0] == sid}
                 allv = {k for k in pop if k[0] == sid}
+                if cands and cands == allv and dict_ts:
+                    raise Violation('query-exact', 'C12.query/dict-kept-timestamp-compared-as-text', dict(filters=desc, via='get-none'))
                 if cands and cands == allv:
                     raise Violation('attached-filters', 'C12.get/none-although-all-versions-pass/%s' % facade,
                                     dict(id=sid, filters=desc))
